@@ -386,3 +386,119 @@ Proof.
   apply RHh_create; [apply rf0_task; exact Hp|apply RHh_st0].
 Qed.
 
+
+(* every program the machine runs during an rtree0 computation is rtree0; in particular a read never branches *)
+Theorem rtree0_run_class P p n t q :
+  rtree0 p ->
+  let h := fst (create [] (FTask p) (st0 P)) in
+  let s1 := snd (create [] (FTask p) (st0 P)) in
+  c_mode (run P n (start h s1)) = MRun t q ->
+  rtree0 q /\ forall x k, q = ReadVar x k -> forall v, erase (k v) = erase q.
+Proof.
+  intros Hp. cbn zeta. intros Hm. destruct (rh_run P n _ (RHc_start P p Hp)) as (_ & _ & Hq). rewrite Hm in Hq.
+  split; [exact Hq|]. intros x k -> v. apply rtree0_read_const. exact Hq.
+Qed.
+
+(* ------------------------------------------------------------------ erasure of machine states *)
+Definition egen (g : option (outcome -> prog)) : option (outcome -> prog) :=
+  match g with Some k => Some (fun o => erase (k o)) | None => None end.
+Definition etask (tk : task) : task :=
+  mkTask (egen (tk_gen tk)) (tk_last tk) (tk_deps tk) (tk_ctxs tk) (tk_cact tk) (tk_ds tk) (tk_iter tk) (tk_next tk).
+Definition ekind (fk : fkind) : fkind := match fk with KTask tk => KTask (etask tk) | _ => fk end.
+Definition efut (f : fut) : fut := mkFut (f_out f) (ekind (f_kind f)).
+Definition is_read (e : event) : bool := match e with EvRead _ _ _ => true | _ => false end.
+Definition est (s : st) : st :=
+  mkSt (map (fun kv => (fst kv, efut (snd kv))) (heap s)) (batches s) (cur s) (sb s) (tasks s) (active s) (vars s) (cis s)
+       (oracle s) (top_next s) (filter (fun e => negb (is_read e)) (trace s)).
+Definition eframe (f : frame) : frame := match f with FValue t k => FValue t (fun o => erase (k o)) | _ => f end.
+Definition emode (m : mode) : mode := match m with MRun t p => MRun t (erase p) | _ => m end.
+Definition ecfg (c : cfg) : cfg := mkC (emode (c_mode c)) (map eframe (c_frames c)) (est (c_st c)).
+
+Lemma get_est h s : get h (est s) = option_map efut (get h s).
+Proof.
+  unfold get. cbn [heap est]. induction (heap s) as [|[h' f] l IH]; cbn; [reflexivity|].
+  destruct (fid_eqb h' h); [reflexivity|exact IH].
+Qed.
+
+Lemma put_est h f s : put h (efut f) (est s) = est (put h f s).
+Proof.
+  unfold put, with_heap, est. cbn. f_equal. induction (heap s) as [|[h' f'] l IH]; cbn; [reflexivity|].
+  destruct (fid_eqb h' h); cbn; [reflexivity|]. f_equal. exact IH.
+Qed.
+
+Lemma get_task_est t s : get_task t (est s) = option_map etask (get_task t s).
+Proof. unfold get_task. rewrite get_est. destruct (get t s) as [[o [tk| | |]]|]; reflexivity. Qed.
+
+Lemma set_task_est t tk s : set_task t (etask tk) (est s) = est (set_task t tk s).
+Proof.
+  unfold set_task. rewrite get_est. destruct (get t s) as [f|]; cbn [option_map]; [|reflexivity].
+  rewrite <- put_est. reflexivity.
+Qed.
+
+Lemma computed_est h s : computed h (est s) = computed h s.
+Proof. unfold computed. rewrite get_est. destruct (get h s) as [f|]; reflexivity. Qed.
+Lemma outcome_of_est h s : outcome_of h (est s) = outcome_of h s.
+Proof. unfold outcome_of. rewrite get_est. destruct (get h s) as [f|]; reflexivity. Qed.
+Lemma var_get_est x s : var_get x (est s) = var_get x s. Proof. reflexivity. Qed.
+Lemma ci_get_est k s : ci_get k (est s) = ci_get k s. Proof. reflexivity. Qed.
+Lemma get_batch_est k s : get_batch k (est s) = get_batch k s. Proof. reflexivity. Qed.
+Lemma cur_idx_est k s : cur_idx k (est s) = cur_idx k s. Proof. reflexivity. Qed.
+Lemma var_set_est x v s : var_set x v (est s) = est (var_set x v s). Proof. reflexivity. Qed.
+Lemma ci_put_est k c s : ci_put k c (est s) = est (ci_put k c s). Proof. reflexivity. Qed.
+Lemma put_batch_est k b s : put_batch k b (est s) = est (put_batch k b s). Proof. reflexivity. Qed.
+Lemma emit_est e s : is_read e = false -> emit e (est s) = est (emit e s).
+Proof. intros H. unfold emit, est. cbn. rewrite H. reflexivity. Qed.
+(* a read is invisible after erasure *)
+Lemma emit_read_est t x v s : est (emit (EvRead t x v) s) = est s.
+Proof. reflexivity. Qed.
+
+Lemma tk_with_ctxs_etask tk cs a : tk_with_ctxs (etask tk) cs a = etask (tk_with_ctxs tk cs a). Proof. reflexivity. Qed.
+Lemma tk_set_ds_etask tk b : tk_set_ds (etask tk) b = etask (tk_set_ds tk b). Proof. reflexivity. Qed.
+Lemma tk_ctxs_etask tk : tk_ctxs (etask tk) = tk_ctxs tk. Proof. reflexivity. Qed.
+Lemma tk_cact_etask tk : tk_cact (etask tk) = tk_cact tk. Proof. reflexivity. Qed.
+Lemma tk_deps_etask tk : tk_deps (etask tk) = tk_deps tk. Proof. reflexivity. Qed.
+Lemma tk_ds_etask tk : tk_ds (etask tk) = tk_ds tk. Proof. reflexivity. Qed.
+
+Global Hint Rewrite get_est get_task_est computed_est outcome_of_est var_get_est ci_get_est get_batch_est cur_idx_est
+  tk_with_ctxs_etask tk_set_ds_etask tk_ctxs_etask tk_cact_etask tk_deps_etask tk_ds_etask
+  set_task_est put_est var_set_est ci_put_est put_batch_est : est.
+Global Hint Rewrite emit_est using reflexivity : est.
+
+Lemma enter_ctx_est t c s : enter_ctx t c (est s) = est (enter_ctx t c s).
+Proof.
+  unfold enter_ctx. rewrite get_task_est.
+  destruct (get_task t s) as [tk|]; cbn [option_map]; destruct c; autorewrite with est; reflexivity.
+Qed.
+
+Lemma pause_plain_est t c s : pause_plain t c (est s) = est (pause_plain t c s).
+Proof. unfold pause_plain. destruct c; autorewrite with est; reflexivity. Qed.
+
+Lemma exit_ctx_est t c s : exit_ctx t c (est s) = est (exit_ctx t c s).
+Proof.
+  unfold exit_ctx. rewrite get_task_est. destruct (get_task t s) as [tk|]; cbn [option_map]; autorewrite with est.
+  - destruct (tk_cact tk); [apply pause_plain_est|reflexivity].
+  - apply pause_plain_est.
+Qed.
+
+Lemma fold_est {X} (f : st -> X -> st) l : (forall s x, f (est s) x = est (f s x)) ->
+  forall s, fold_left f l (est s) = est (fold_left f l s).
+Proof. intros H. induction l as [|x l IH]; intros s; cbn; [reflexivity|]. rewrite H. apply IH. Qed.
+
+Lemma complete_task_est t o s : complete_task t o (est s) = est (complete_task t o s).
+Proof.
+  unfold complete_task. rewrite get_task_est. destruct (get_task t s) as [tk|]; cbn [option_map]; [|reflexivity].
+  assert (H : match tk_gen (etask tk) with
+              | Some _ => fold_left (fun s c => exit_ctx t c s) (rev (tk_ctxs (etask tk))) (est s)
+              | None => est s end =
+              est (match tk_gen tk with
+                   | Some _ => fold_left (fun s c => exit_ctx t c s) (rev (tk_ctxs tk)) s
+                   | None => s end)).
+  { cbn [etask tk_gen tk_ctxs]. destruct (tk_gen tk); cbn [egen]; [|reflexivity].
+    apply (fold_est (fun s c => exit_ctx t c s)). intros s0 c0. apply exit_ctx_est. }
+  rewrite H. rewrite get_task_est.
+  destruct (get_task t _) as [tk1|]; cbn [option_map]; [|reflexivity].
+  rewrite <- emit_est by reflexivity. rewrite <- put_est. reflexivity.
+Qed.
+
+Lemma accept_error_est t e s : accept_error t e (est s) = est (accept_error t e s).
+Proof. unfold accept_error. rewrite computed_est. destruct (computed t s); [reflexivity|apply complete_task_est]. Qed.
